@@ -2,6 +2,7 @@ package code
 
 import (
 	"go/build"
+	"go/token"
 	"os"
 	"path/filepath"
 	"regexp"
@@ -56,6 +57,13 @@ func QualifyPackagePath(importPath string) string {
 
 var invalidPackageNameChar = regexp.MustCompile(`\W`)
 
+// SanitizePackageName derives a Go package name from the last element of a directory or import path.
+// Characters that cannot appear in an identifier become underscores; a result that still is not a usable
+// package name (it starts with a digit, is a Go keyword or is the blank identifier) gets a leading underscore.
 func SanitizePackageName(pkg string) string {
-	return invalidPackageNameChar.ReplaceAllLiteralString(filepath.Base(pkg), "_")
+	name := invalidPackageNameChar.ReplaceAllLiteralString(filepath.Base(pkg), "_")
+	if name == "_" || token.IsKeyword(name) || (name[0] >= '0' && name[0] <= '9') {
+		name = "_" + name
+	}
+	return name
 }
